@@ -41,6 +41,22 @@ CLAIMS = {
    text="TLC explores every health history (<=6 checks, thresholds 2-3), signal time and worker interleaving in the model; on the real binary, health histories enumerated by TLC (14 quick / 186 thorough, 1 s interval) and signal placements {idle, listed, at backend} x {SIGINT, SIGTERM} x grace/latency combinations are executed and every recorded run (hooks Healthy/Health/PollCheck/PollStop/Signal/Cancel/GraceEnd + harness observations of health replies, list calls, uploads, exit time) must be a behaviour of AgentLife.",
    note="Trusted: TLC, scripted health endpoint, fake proxy, wall-clock thresholds (prompt <= 2 s, grace end within +2 s). The 'uploading' placement is not separately forced.",
    design="6 C20"),
+ "C10": dict(engine="Sessions", technique="TLA+ spec Sessions (session cache as LRU of jars, request phases of sessions.go, UnlockedLookup attack) checked by TLC + seeded cookie histories over TLC-exported class domains through the real SessionHandler, judged by TLC trace validation (SessionsTrace) against an independent cookiejar per session + concurrent bursts in a -race child process",
+   text="TLC checks Isolation, IssuedOnce and NoFatal for all interleavings of 3 clients x 2 requests with a cache of 2 (1.6 M states) and shows that an unsynchronised lookup breaks NoFatal; 300 (quick) / 3000 (thorough) sequential histories over sessions x hosts x paths x 11 cookie operations x client cookies run through the real handler: the TLA+ trace spec requires backend view = reference jar + client cookies, no Set-Cookie but the agent's own (with its attributes, issued exactly when none was presented, fresh), the session cookie never reaching the backend, and value tags of other sessions never appearing; eviction scenario and 24x40 concurrent requests under the race detector.",
+   note="Trusted: TLC, net/http/cookiejar as the reference named by the property, the harness' tagging of cookie values. Exact backend view is judged only for sequential histories. NoLeak is structurally true in the model (Header strips unconditionally); its non-vacuity comes from the corrupted-trace self-test.",
+   design="6 C10"),
+ "C11": dict(engine="WsShim", technique="TLA+ spec WsShim (queues, writer/reader goroutines, call state machines; C2S/S2C prefix invariants) checked by TLC + seeded message histories through the real websockets.Proxy with a real gorilla backend + TLC trace validation (WsShimTrace)",
+   text="TLC checks exactly-once in-order delivery in both directions for all interleavings in the bounded model; 40 (quick) / 600 (thorough) random histories of client batches (up to 15 messages, more than the 10-slot buffers), backend bursts (up to 25) and polls with text, binary and JSON payloads (a third with header injection) run through the real shim, and every BackendRecv / poll result must be the next message in order, unchanged (JSON-equal up to exactly the missing injected headers).",
+   note="Trusted: TLC, the harness' per-message payload comparison (bytes; JSON values with exact numbers for injected messages). One data post and one poll outstanding at a time. Protocol version 1.",
+   design="6 C11"),
+ "C12": dict(engine="WsShim", technique="TLA+ spec WsShim (NoPanic, Statuses, Answered, DrainThenClosed; CloseClosesChan attack) checked by TLC + TLC-enumerated call sequences and gated replays of the attack counterexample on the real shim + TLC trace validation (WsShimTrace)",
+   text="TLC explores all interleavings of three concurrent shim calls with the connection goroutines and proves every call is answered and nothing panics, and finds the send-on-closed-channel panic when Close closes the channel; 4368 call sequences (length <= 3, 16 symbols incl. unknown/closed/malformed arguments, backend send/close) are enumerated by TLC, a seeded sample (150 / 2500) is run on the real handler, and the two racing pairs of the counterexample (data vs close, close vs close) are forced with gates (verifhook.GateFunc) in a -race child process together with an ungated stress.",
+   note="Trusted: TLC, recording gorilla backend. A poll on a session with nothing pending is preceded by a backend message (an empty poll legitimately blocks 20 s). A panic recovered in a harness goroutine counts as a panic.",
+   design="6 C12"),
+ "C13": dict(engine="WsShim", technique="TLA+ trace spec WsShimTrace (Confined: every dialled address equals the backend; path/query come from the supplied URL) over TLC-enumerated URL syntax classes run through the real shim with a recording dialer",
+   text="20 URL syntax classes x 5 (quick) / 200 (thorough) concrete instances, incl. opaque URLs, userinfo, IPv6, parse errors and random bytes, are posted to the open endpoint of the real shim; every address gorilla's DefaultDialer is asked to connect to is recorded and must be the configured backend; on success the backend must have seen exactly the supplied path and query; requests outside the shim prefix must reach the wrapped handler untouched.",
+   note="Trusted: TLC, the recording NetDialContext (refuses foreign addresses, so a foreign dial is observed without traffic). URL classes are finite.",
+   design="6 C13"),
  "C01": dict(engine="Relay", technique="TLA+ spec Relay checked by TLC (exhaustive interleavings, liveness, IdCollision attack) + TLC trace validation (RelayTrace) of recorded executions of the real proxy/agent binaries, incl. -race builds",
    text="Bounded-exhaustive model checking of the proxy/agent relay design (all interleavings of 3 requests, 2-3 pollers, faults) plus conformance: every hook/observable event of bursts of up to 64 concurrent clients through the real binaries must be a behaviour of the specification, with the correlation invariants evaluated at every step.",
    note="Trusted: TLC, the token projection of the harness backend/clients, hook placement (receiver side of channel rendezvous). Bounds: 3 requests in the model, <=64 concurrent clients per burst in the runs. Race-detector reports count only with both stacks in repository code.",
